@@ -106,9 +106,10 @@ def kfold_body(case, ctx):
                                                                     random_state=case["seed"], **kw).split(X)]
     with warnings.catch_warnings():
         warnings.simplefilter("ignore")
-        same_object = [(np.array(a), np.array(b)) for a, b in cv.split(X)]
+        # second call on the same object, this time with the y and groups arguments of the scikit-learn interface (documented as always ignored)
+        same_object = [(np.array(a), np.array(b)) for a, b in cv.split(X, np.arange(X.shape[0], dtype="float64"), np.arange(X.shape[0]) % 3)]
     ctx.check(len(same_object) == len(splits) and all(np.array_equal(a[1], b[1]) for a, b in zip(same_object, splits)),
-              "splitting twice with the same BlockKFold object (random_state=%r) gives different folds", case["seed"])
+              "splitting twice with the same BlockKFold object (random_state=%r; the second time with y and groups given, which are documented as ignored) gives different folds", case["seed"])
     ctx.check(len(splits) == n_splits, "BlockKFold yielded %d folds, n_splits=%d", len(splits), n_splits)
     ctx.check(cv.get_n_splits() == n_splits, "get_n_splits() != n_splits")
     n = X.shape[0]
@@ -259,7 +260,7 @@ def shuffle_body(case, ctx):
         raise Violation("test/train sizes %r/%r are impossible for %d blocks but were accepted: %r" % (case["test_size"], case["train_size"], occupied.size, res))
     cv_obj = vd.BlockShuffleSplit(**args, **kw)
     splits = [(np.array(a), np.array(b)) for a, b in cv_obj.split(X)]
-    same_object = [(np.array(a), np.array(b)) for a, b in cv_obj.split(X)]
+    same_object = [(np.array(a), np.array(b)) for a, b in cv_obj.split(X, np.arange(X.shape[0], dtype="float64"), np.arange(X.shape[0]) % 3)]  # y and groups are documented as ignored
     ctx.check(len(same_object) == len(splits) and all(np.array_equal(a[1], b[1]) for a, b in zip(same_object, splits)),
               "splitting twice with the same BlockShuffleSplit object (random_state=%r) gives different splits", case["seed"])
     again = [(np.array(a), np.array(b)) for a, b in vd.BlockShuffleSplit(**args, **kw).split(X)]
